@@ -86,6 +86,12 @@ def body(rng, b: B, ind: str, is_test: bool, is_async: bool, n: list):
             b.add("%slet w%d = %s(|| {" % (ind, k, wrapper))
             b.add("%s    std::fs::read_to_string(\"wrapped_%d\")" % (ind, k), "fs-wrapped", **c)
             b.add("%s});" % ind)
+        elif r < 0.97 and len(ind) <= 8:
+            # nested function item: an async fn is an async context of its own, wherever it is declared
+            inner_async = True if is_async else rng.random() < 0.5   # (a sync fn nested in an async fn is not generated: documentation silent)
+            b.add("%s%sfn nested_%d(opt_n: Option<i32>) {" % (ind, "async " if inner_async else "", k))
+            body(rng, b, ind + "    ", is_test, inner_async, n)
+            b.add("%s}" % ind)
         else:
             b.add("%sconsume(plain_%d);" % (ind, k))
 
